@@ -224,3 +224,17 @@ Theorem c14_ctor_iter_refuted :
   exists f, ctor_IterIntoConcurrentIter_Blanket f = true /\ required_share_ConIterOfIter f = false.
 Proof. exact ctor_iter_refuted. Qed.
 Print Assumptions c14_ctor_iter_refuted.
+
+(** the public surface (clause: no sequence of safe public calls produces two owners) *)
+From OCI.gen Require Import Surface.
+From OCI.proofs Require Import SurfaceOk.
+Theorem c14_public_modules_are_the_reviewed_ones : public_modules = ["iter"; "iter::atomic_iter"].
+Proof. exact known_public_modules. Qed.
+Print Assumptions c14_public_modules_are_the_reviewed_ones.
+
+Theorem c14_internal_protocol_modules_are_private :
+  forallb (fun m => existsb (String.eqb m) private_modules)
+          ["iter::buffered"; "iter::buffered::buffered_chunk"; "iter::buffered::buffered_iter"; "iter::implementors";
+           "iter::implementors::taken_slice"; "iter::default_fns"; "iter::constructors::implementors"] = true.
+Proof. exact internal_modules_private. Qed.
+Print Assumptions c14_internal_protocol_modules_are_private.
